@@ -98,13 +98,23 @@ func c18Pauses(c *fw.Ctx) {
 		if r.Intn(3) == 0 {
 			maxFlush = time.Duration(1+r.Intn(5)) * time.Millisecond
 		}
-		db, err := dbh.Open(dir, []dbh.TableDef{{Name: "t", SQL: c18SQL, Retention: 24 * time.Hour, Stream: "inbound", MaxFlush: maxFlush}}, dbh.Opts{VirtualTime: true})
+		// every third pause: a short retention, and one of the points processed during the pause lies so far in
+		// the future that it moves the database clock past the retention of everything the scan has yet to deliver
+		clockJump := r.Intn(3) == 0
+		retention := 24 * time.Hour
+		if clockJump {
+			retention = 10 * time.Minute
+		}
+		db, err := dbh.Open(dir, []dbh.TableDef{{Name: "t", SQL: c18SQL, Retention: retention, Stream: "inbound", MaxFlush: maxFlush}}, dbh.Opts{VirtualTime: true})
 		if err != nil {
 			c.Violate("open", "%v", err)
 			return
 		}
 		nKeys := 6 + r.Intn(20)
 		nPeriods := 1 + r.Intn(4)
+		if clockJump {
+			nPeriods = 3 + r.Intn(3)
+		}
 		A := map[c18Cell]map[int]bool{}
 		B := map[c18Cell]map[int]bool{}
 		split := []string{"mem", "disk", "mixed"}[r.Intn(3)]
@@ -126,6 +136,21 @@ func c18Pauses(c *fw.Ctx) {
 		last := c18Cell{"k00", nPeriods + 1}
 		A[last] = map[int]bool{0: true}
 		aList = append(aList, last)
+		if clockJump {
+			// every key gets its early periods flushed and its later periods left in memory, so that every
+			// row the scan delivers is merged from the file and the memstore copy
+			split = "mixed"
+			A = map[c18Cell]map[int]bool{last: {0: true}}
+			aList = aList[:0]
+			for p := 0; p < nPeriods; p++ {
+				for k := 0; k < nKeys; k++ {
+					cell := c18Cell{fmt.Sprintf("k%02d", k), p}
+					A[cell] = map[int]bool{r.Intn(30): true}
+					aList = append(aList, cell)
+				}
+			}
+			aList = append(aList, last)
+		}
 		total := 0
 		for _, cell := range aList {
 			total += len(A[cell])
@@ -169,9 +194,13 @@ func c18Pauses(c *fw.Ctx) {
 			}
 			B[cell][j] = true
 		}
+		if clockJump {
+			B[c18Cell{"zfuture", nPeriods + 2 + 10 + 2 + r.Intn(20)}] = map[int]bool{0: true}
+			c.Obs("pauses_with_clock_jump", 1)
+		}
 		pauseAt := r.Intn(len(aList))
 		flushes := r.Intn(3)
-		combo := fmt.Sprintf("split=%s pauseAtRow=%d/%d flushesDuringPause=%d timerFlush=%v", split, pauseAt, len(aList), flushes, maxFlush > 0)
+		combo := fmt.Sprintf("split=%s pauseAtRow=%d/%d flushesDuringPause=%d timerFlush=%v clockJump=%v", split, pauseAt, len(aList), flushes, maxFlush > 0, clockJump)
 		combos[combo] = true
 		c.HashAdd(combo)
 		paused := false
@@ -179,6 +208,13 @@ func c18Pauses(c *fw.Ctx) {
 		// a third of the pauses happen even earlier: right after the scan took its memstore copy and
 		// before it picked / opened the file (hook point outside any lock)
 		atHook := r.Intn(3) == 0
+		if clockJump {
+			// the retention cut-off of a scan is read from the clock when the file scan starts, i.e. after these
+			// hook points: which periods have expired "as of the query" is then legitimately decided by the later
+			// clock (the statement speaks about points reflected in rows, not about the expiry instant), so the
+			// clock-jump pauses only use the consumer callback, where the cut-off has already been fixed
+			atHook = false
+		}
 		if atHook {
 			pt := []string{"iterate.afterCopy", "iterate.beforeScan"}[r.Intn(2)]
 			combo += " at=" + pt
